@@ -15,6 +15,7 @@ import (
 	"net/url"
 	"strings"
 	"time"
+	_ "time/tzdata" // the calendar part must not depend on the host's zone database
 
 	"github.com/Cloud-Foundations/keymaster/lib/certgen"
 	"github.com/Cloud-Foundations/keymaster/vf/vclock"
@@ -432,6 +433,112 @@ func c03OtherPaths(c *vfeng.Ctx, w *vfWorld) {
 	_ = st
 }
 
+// ---- calendar arithmetic: the caps are durations, not dates.  Every issuing
+// path is driven with the daemon's local time zone set to zones that observe
+// daylight saving (one of them by 30 minutes), at instants shortly before and
+// after every transition of the next 400 days: a lifetime computed as "the
+// same wall-clock time tomorrow" is 25 hours long across the autumn change.
+func c03Calendar(c *vfeng.Ctx) {
+	orig := time.Local
+	defer func() { time.Local = orig; vclock.Reset() }()
+	pkixDER, _ := x509.MarshalPKIXPublicKey(vfKeys.userEC.Public())
+	b64 := base64.RawURLEncoding.EncodeToString(pkixDER)
+	for _, zone := range []string{"UTC", "Europe/Berlin", "America/New_York", "Australia/Lord_Howe"} {
+		loc, err := time.LoadLocation(zone)
+		if err != nil {
+			c.Res.HarnessErr = "time zone database: " + err.Error()
+			return
+		}
+		// transitions of this zone within 400 days of the virtual epoch
+		var instants []time.Duration
+		epoch := time.Unix(vclock.EpochUnix, 0)
+		_, prev := epoch.In(loc).Zone()
+		for h := 1; h < 400*24; h++ {
+			_, off := epoch.Add(time.Duration(h) * time.Hour).In(loc).Zone()
+			if off != prev {
+				tr := time.Duration(h) * time.Hour
+				instants = append(instants, tr-24*time.Hour-time.Minute, tr-23*time.Hour, tr-12*time.Hour, tr-90*time.Minute, tr+time.Hour)
+				prev = off
+			}
+		}
+		if len(instants) == 0 {
+			instants = []time.Duration{0, 35 * 24 * time.Hour}
+		}
+		time.Local = loc
+		w := vfNewWorld(vfOpts{CertBackends: []string{"password"}, WebUIBackends: []string{"password"}, Ed25519CA: true, AWS: true,
+			AutomationUsers: []string{c03AutoUser}, AutomationAdmins: []string{"autoadmin"}, Users: map[string]string{"alice": vfUsers["alice"], c03AutoUser: "autobot-pw", "autoadmin": "autoadmin-pw"}})
+		for _, at := range instants {
+			vclock.Reset()
+			vclock.Advance(at)
+			now := vclock.Now()
+			pt := map[string]interface{}{"part": "calendar", "zone": zone, "at_s": int64(at.Seconds())}
+			judge := func(family string, cap time.Duration, resp *vfResp, isSSH bool) {
+				c.Eval(1)
+				if resp.Code != 200 {
+					c.Class(fmt.Sprintf("calendar|%s|%s|refused-%d", zone, family, resp.Code), pt)
+					return
+				}
+				var nb, na int64
+				if isSSH {
+					sc, err := vfParseSSHCert(resp.Body)
+					if err != nil {
+						c.Violate("C03|undecodable|calendar-"+family, "200 without certificate", pt)
+						return
+					}
+					nb, na = int64(sc.ValidAfter), int64(sc.ValidBefore)
+				} else {
+					leaf, err := vfParseCertPEM(resp.Body)
+					if err != nil {
+						c.Violate("C03|undecodable|calendar-"+family, "200 without certificate", pt)
+						return
+					}
+					nb, na = leaf.NotBefore.Unix(), leaf.NotAfter.Unix()
+				}
+				switch {
+				case nb > now.Unix():
+					c.Violate("C03|future-start|"+family+"|local-zone-with-dst", fmt.Sprintf("zone %s at %s: certificate starts %d > now %d", zone, now.In(loc), nb, now.Unix()), pt)
+				case na > now.Add(cap).Unix():
+					c.Violate("C03|unbounded|"+family+"|local-zone-with-dst", fmt.Sprintf("zone %s at %s: certificate valid %d..%d = %s, cap %s", zone, now.In(loc), nb, na, time.Duration(na-nb)*time.Second, cap), pt)
+				default:
+					c.Class(fmt.Sprintf("calendar|%s|%s|life=%s", zone, family, time.Duration(na-now.Unix())*time.Second), pt)
+				}
+			}
+			ck := w.vfCookie("alice", AuthTypePassword)
+			for _, ct := range []string{"ssh", "x509", "x509-kubernetes"} {
+				pub := vfPKIXPem(vfKeys.userEC.Public())
+				if ct == "ssh" {
+					pub = vfSSHPub(vfKeys.userRSA.Public())
+				}
+				for _, dur := range [][]string{nil, {"24h"}, {"1000h"}} {
+					q := vfCertgenReq("alice", ct, pub, dur...)
+					q.Cookies = []*http.Cookie{ck}
+					judge("certgen-"+ct, 24*time.Hour, w.Do(q.Build()), ct == "ssh")
+				}
+			}
+			judge("cloud-role", 24*time.Hour, w.Do(vfAWSReq(vfAWSAccount, "deployer", vfPKIXPem(vfKeys.userEC.Public())).Build()), false)
+			ack := w.vfCookie("autoadmin", AuthTypePassword)
+			for _, dur := range [][]string{nil, {"1080h"}, {"100000h"}} {
+				form := url.Values{"identity": {c03AutoUser}, "requestor_netblock": {"10.9.0.0/16"}, "target_netblock": {"10.10.0.0/16"}, "pubkey": {b64}}
+				for _, d := range dur {
+					form.Add("duration", d)
+				}
+				r := w.Do(vfReq{Method: "POST", Path: getRoleRequestingPath, Form: form, Cookies: []*http.Cookie{ack}}.Build())
+				judge("role-mint", 45*24*time.Hour, r, false)
+				if r.Code == 200 {
+					if leaf, err := vfParseCertPEM(r.Body); err == nil {
+						rform := url.Values{"pubkey": {b64}}
+						for _, d := range dur {
+							rform.Add("duration", d)
+						}
+						judge("role-refresh", 45*24*time.Hour, w.Do(vfReq{Method: "POST", Path: refreshRoleRequestingCertPath, Form: rform, TLS: w.vfTLSFor(leaf), Remote: "10.9.1.1:999"}.Build()), false)
+					}
+				}
+			}
+		}
+		w.Close()
+	}
+}
+
 func c03JudgeAutomation(c *vfeng.Ctx, family string, resp *vfResp, now time.Time, dur []string, age time.Duration) {
 	dclass, _ := c03DurClass(dur, now)
 	if resp.Code != 200 {
@@ -460,6 +567,7 @@ func init() {
 		ID:    "C03",
 		Level: "model_checking",
 		Rule: "exhaustive product duration-text x credential(kind,age) x issuing path on the real certGenHandler/roleRequetingCertGenHandler/refreshRoleRequestingCertGenHandler under the virtual clock; " +
+			"plus every issuing path (user ssh/x509/kubernetes, cloud-role, role mint and refresh) with the daemon's local time zone set to UTC / Europe/Berlin / America/New_York / Australia/Lord_Howe at 5 instants around every daylight-saving transition of the next 400 days; " +
 			"a class is (outcome, duration class, credential kind, lifetime bucket); oracle: start<=now and end<=min(now+requested, now+24h, auth+24h) in the certificate's own integer domain, 45d for automation",
 		Assumptions: []string{"virtual clock substituted for time.Now in cmd/keymasterd, lib/certgen and golang.org/x/time/rate by AST rewrite", "time.ParseDuration (stdlib) is the reference parser for the duration text", "a certificate whose end precedes its start is already expired and not a violation (DESIGN 2.5)"},
 		Bounds: func(tier string) map[string]interface{} {
@@ -491,6 +599,9 @@ func init() {
 			}
 			if c.Shard == 0 {
 				c03OtherPaths(c, w)
+			}
+			if c.Shard == 1%c.NShards {
+				c03Calendar(c)
 			}
 		},
 		Replay: func(c *vfeng.Ctx, raw json.RawMessage) (bool, string) {
